@@ -12,6 +12,7 @@ def parseScratch : String → Option Scratch
   | "TS_cycles" => some .tsCycles
   | "helperF" => some .helperF
   | "counterDur" => some .counterDur
+  | "nonSliceDur" => some .nonSliceDur
   | _ => none
 
 def handle (args : List String) : String :=
